@@ -54,8 +54,7 @@ FLOWIR_RICH = {
         {'name': 'F', 'stage': 1,
          'command': {'executable': 'echo', 'arguments': 'C:output stage0.AA/out.txt:ref'},
          'references': ['C:output', 'stage0.AA/out.txt:ref'],
-         'workflowAttributes': {'aggregate': True},
-         'resourceManager': {'config': {'backend': 'simulator'}}},
+         'workflowAttributes': {'aggregate': True}},
     ],
     'output': {'out1': {'data-in': 'stage1.C/out.stdout:copy', 'description': 'first'},
                'out2': {'data-in': 'stage0.B/b.txt:ref', 'description': 'second', 'type': 'csv'}},
@@ -114,7 +113,7 @@ DSL_RICH = {
         {'signature': {'name': 'joiner', 'parameters': [{'name': 'a'}, {'name': 'b'}, {'name': 'c'},
                                                         {'name': 'legacy'}]},
          'command': {'executable': 'cat', 'arguments': '%(a)s %(b)s g.txt %(legacy)s',
-                     'environment': {'W': 'w'}}},
+                     'environment': {'PY': 'py', 'PX': 'px'}}},
     ],
 }
 
@@ -482,8 +481,10 @@ def build(root, thorough):
                 if len(names) == 4 and mode == 'exp':
                     continue
                 tid = 'varfiles/%s/%s/%s' % (kind, mode, '+'.join(names))
-                add(tid, 'varfiles', tid, mode, package, vf=[os.path.join(vfd, n) for n in names], sweep=True,
-                    small=True, names=list(names), kind=kind,
+                # exp aggregates the files itself before the configuration object sees them: reference process only
+                add(tid, 'varfiles', tid, mode, package, vf=[os.path.join(vfd, n) for n in names],
+                    sweep=(mode != 'exp' or len(names) == 1), small=(mode != 'exp'), seed0=(mode == 'exp'),
+                    names=list(names), kind=kind,
                     descr={'package': os.path.basename(package), 'mode': mode, 'variable_files': list(names)})
 
     # ---- family listing: the same load with every permutation of what the file system lists
@@ -502,13 +503,13 @@ def build(root, thorough):
           ('vars', FLOWIR_VARS, {}, 'flowir_package.yaml', 'hash/vars/exp/None', 'exp', None)]
     for name, doc, files, main, gid, mode, inputs in ko:
         for i, (label, d2) in enumerate(key_order_variants(doc, max_keys)):
-            p = write_yaml_package(pk, 'ko-%s-%03d' % (name, i), d2, files, main=main)
+            p = write_yaml_package(os.path.join(pk, 'ko-%s-%03d' % (name, i)), name, d2, files, main=main)
             add('keyorder/%s/%03d' % (name, i), 'keyorder', gid, mode, p, inputs=inputs, seed0=True,
                 descr={'package': name, 'mode': mode, 'reordered': label})
     for name, files, extra, gid, mode, plat in (('dos', DOSINI_RICH, DOSINI_RICH_FILES, 'hash/dos/exp/None', 'exp', None),
                                                 ('dossmall', small, None, 'hash/dossmall/conf/None', 'conf', None)):
         for i, (label, f2) in enumerate(ini_variants(files, max_keys)):
-            p = write_ini_package(pk, 'ko-%s-%03d' % (name, i), f2, extra)
+            p = write_ini_package(os.path.join(pk, 'ko-%s-%03d' % (name, i)), name, f2, extra)
             add('keyorder/%s/%03d' % (name, i), 'keyorder', gid, mode, p, plat, seed0=True,
                 descr={'package': name, 'mode': mode, 'reordered': label})
     # variable files with reordered mappings / sections (one file given: no layering involved)
@@ -535,3 +536,39 @@ def build(root, thorough):
     for t in tasks:
         assert t['group'] in known, t['group']
     return tasks
+
+
+# what the components of the layering packages must show: kind -> (values without user files, component -> (arguments
+# template, stage))
+VARS_EXPECT = {
+    'flowir': ({'v1': 'base1', 'v2': 'base2', 'v3': 'base3', 'v4': 'base4', 's1': 'sbase'},
+               {'stage0.A': ('%(v1)s %(v2)s %(v3)s %(v4)s %(s1)s', 0), 'stage1.B': ('stage0.A:ref %(v1)s %(v2)s', 1)}),
+    'dosini': ({'v1': 'base1', 'v2': 'base2', 'v3': 'base3', 'v4': 'base4', 's1': 'sbase'},
+               {'stage0.A': ('%(v1)s %(v2)s %(v3)s %(v4)s %(s1)s', 0), 'stage1.B': ('stage0.A:ref %(v1)s %(v2)s', 1)}),
+    'dsl': ({'v1': 'arg1', 'v2': 'd2', 'v3': 'd3', 'v4': 'd4'},
+            {'stage0.a': ('%(v1)s %(v2)s', 0), 'stage0.b': ('%(v3)s %(v4)s', 0)}),
+}
+
+PROBE_SOURCE = r'''
+import json, sys
+recipes = json.load(open(sys.argv[1]))
+out = []
+for r in recipes:
+    op = r['op']
+    if op == 'set':
+        o = list(set(r['a']))
+    elif op == 'intersection':
+        o = list(set(r['a']).intersection(r['b']))
+    elif op == 'union':
+        a = set()
+        for x in r['a']:
+            a.add(x)
+        b = set()
+        for x in r['b']:
+            b.add(x)
+        o = list(a.union(b))
+    else:
+        raise SystemExit('unknown op')
+    out.append(o)
+sys.stdout.write(json.dumps(out))
+'''
